@@ -124,8 +124,8 @@ package config
 //@   props C15 C12 C14
 //@   propagates
 //@   at@C15 return assert cmd == parse.CmdName(value) && rest == parse.CmdRest(value)
-//@   at@C15 return assert cmd == "output:package" && err == nil && !strings.Contains(parse.StringValue(rest), ":") ==> c.OutputPackagePath == parse.StringValue(rest) && c.OutputPackageName == ""
-//@   at@C15 return assert cmd == "output:package" && err == nil && strings.Contains(parse.StringValue(rest), ":") ==> c.OutputPackagePath + ":" + c.OutputPackageName == parse.StringValue(rest) && !strings.Contains(c.OutputPackagePath, ":")
+//@   at@C15,C18,C01 return assert cmd == "output:package" && err == nil && !strings.Contains(parse.StringValue(rest), ":") ==> c.OutputPackagePath == parse.StringValue(rest) && c.OutputPackageName == ""
+//@   at@C15,C18,C01 return assert cmd == "output:package" && err == nil && strings.Contains(parse.StringValue(rest), ":") ==> c.OutputPackagePath + ":" + c.OutputPackageName == parse.StringValue(rest) && !strings.Contains(c.OutputPackagePath, ":")
 //@   at@C15 return assert cmd == "output:package" ==> (err == nil) == parse.StringOK(rest)
 //@   at@C15 return assert cmd != "output:package" ==> c.OutputPackagePath == old(c.OutputPackagePath) && c.OutputPackageName == old(c.OutputPackageName)
 //@   at@C15 return assert cmd != "output:file" ==> c.OutputFile == old(c.OutputFile)
@@ -204,7 +204,7 @@ package config
 //@   at@C08 return assert cmd == "enum:map" && err == nil ==> len(strings.Fields(rest)) == 2 && has(m.EnumMapping.Map, strings.Fields(rest)[0]) && m.EnumMapping.Map[strings.Fields(rest)[0]] == strings.Fields(rest)[1]
 // C05: every field-level setting line (map, ignore, autoMap and the field-level inheritable keys) is recorded in
 // RawFieldSettings -- that list is what the overlap and the placement checks look at
-//@   at@C05 return assert (cmd == "map" || cmd == "ignore" || cmd == "autoMap" || cmd == "ignoreUnexported" || cmd == "matchIgnoreCase" || cmd == "ignoreMissing" || cmd == "update:ignoreZeroValueField") && err == nil
+//@   at@C05,C03,C12 return assert (cmd == "map" || cmd == "ignore" || cmd == "autoMap" || cmd == "ignoreUnexported" || cmd == "matchIgnoreCase" || cmd == "ignoreMissing" || cmd == "update:ignoreZeroValueField") && err == nil
 //@           ==> len(m.RawFieldSettings) == old(len(m.RawFieldSettings)) + 1 && m.RawFieldSettings[len(m.RawFieldSettings)-1] == value
 // C05/C10: a mapping line never replaces the entry of a field (an earlier `ignore` of the same field stays in force)
 //@   at@C10,C05 return assert forall k string :: old(has(m.Fields, k)) ==> has(m.Fields, k) && m.Fields[k] == old(m.Fields[k])
@@ -218,7 +218,7 @@ package config
 //@           && arg2.OutputPackagePath == c.OutputPackagePath && arg0 == c.Package
 // the converter type that may appear as a parameter of the custom function is the one of THIS output format (none for
 // output:format function/variables: there is no receiver to pass)
-//@   at@C14 call ctx.Loader.GetOne#* assert arg2.Converter == c.typeForMethod()
+//@   at@C14,C06,C12 call ctx.Loader.GetOne#* assert arg2.Converter == c.typeForMethod()
 //@   at@C14 return assert cmd == "update" && err == nil ==> m.updateParam == parse.StringValue(rest)
 //@   at@C14 return assert cmd != "update" ==> m.updateParam == old(m.updateParam)
 //@   at@C14 return assert cmd != "context" ==> forall k string :: has(m.localOpts.Context, k) == old(has(m.localOpts.Context, k))
